@@ -15,7 +15,7 @@ from vf.conform import Conf, parse_names
 from vf.world import World
 
 PID = "C18"
-TREE = {"a": {"x": b"XXXXXX"}, "b": b"BBBB", "c": {}}
+TREE = {"a": {"x": b"XXXXXX", "s": {"t": {}}}, "b": b"BBBB", "c": {}}
 USERS = [M.UserSpec(None)]
 PAYLOAD = b"NEW"
 BACKENDS = ["memory", "pathio", "async"]
@@ -26,6 +26,7 @@ ALPHABET = [
     "DELE b", "DELE a", "DELE missing", "DELE a/x",
     "RNFR a", "RNFR b", "RNFR c", "RNFR a/x", "RNFR missing",
     "RNTO n", "RNTO b", "RNTO a", "RNTO c/n", "RNTO missing/y", "RNTO b/z", "RNTO a/sub", "RNTO a/x/../y",
+    "RNTO a/s/in", "RNTO a/s/t/deep", "RNFR a/s", "RNTO c/s2",
     "T:STOR new", "T:STOR b", "T:STOR a", "T:STOR missing/y", "T:STOR a/new", "T:STOR b/z",
     "T:APPE new", "T:APPE b", "T:APPE a",
     "T:RETR b", "T:RETR a/x", "T:RETR a", "T:RETR missing",
@@ -154,7 +155,7 @@ def bfs(depth, cap):
 # --------------------------------------------------------------------------
 # backend API level: PathIO vs AsyncPathIO
 # --------------------------------------------------------------------------
-UNIVERSE = ["a", "a/x", "b", "c", "missing", "missing/y", "b/z"]
+UNIVERSE = ["a", "a/x", "b", "c", "missing", "missing/y", "b/z", "a/s", "a/s/t"]
 
 
 def api_ops():
@@ -172,6 +173,9 @@ def api_ops():
     for s, d in itertools.permutations(UNIVERSE, 2):
         ops.append(("rename", s, d))
     ops.append(("rename", "a", "a/x/in"))
+    ops.append(("rename", "a", "a/s/in"))
+    ops.append(("rename", "a", "a/s/t/in"))
+    ops.append(("rename", "a/s", "a/s/t/in"))
     ops.append(("rename", "b", "b"))
     return ops
 
